@@ -51,7 +51,7 @@ RULE = ("Hypothesis-generated basin reference graphs over 1..6 files (shape x ru
         "graph reachable from the entry file contains a reference cycle of length >= 2 "
         "or a file-type basin defined in a file that is reached through a network "
         "format; distinct = sha1 of the canonical JSON spec")
-BUDGET = {"quick": 600, "thorough": 12000}
+BUDGET = {"quick": 1200, "thorough": 16000}
 ESSENTIAL = ["graph:cycle>=2", "graph:selfloop", "graph:remote->file",
              "id:equal", "id:prefix-mapped", "id:prefix-unmapped", "id:unrelated",
              "id:referrer-none", "id:basin-none", "loc:relative", "loc:dangling",
